@@ -35,43 +35,6 @@ theorem pull_length (bs rest : Bytes) (hd : Hd) (h : pull bs = some (hd, rest)) 
       subst this
       simp only [List.length_cons]; omega
 
-theorem minBytesF_length (f : Nat) : ∀ (n k : Nat), n < 256 ^ k → (minBytesF f n).length ≤ k := by
-  induction f with
-  | zero => intro n k _; simp [minBytesF]
-  | succ f ih =>
-    intro n k h
-    simp only [minBytesF]
-    split
-    · simp
-    · next hn =>
-      cases k with
-      | zero => simp at h; omega
-      | succ k =>
-        have : n / 256 < 256 ^ k := by
-          rw [Nat.div_lt_iff_lt_mul (by decide)]; rw [Nat.pow_succ] at h; exact h
-        have := ih (n / 256) k this
-        simp only [List.length_append, List.length_singleton]; omega
-
-theorem foldl_be_lt (bs : Bytes) : ∀ a : Nat, bs.foldl (fun acc b => acc * 256 + b.toNat) a < (a + 1) * 256 ^ bs.length := by
-  induction bs with
-  | nil => intro a; simp
-  | cons b bs ih =>
-    intro a
-    simp only [List.foldl_cons, List.length_cons]
-    have h1 := ih (a * 256 + b.toNat)
-    have hb := b.toNat_lt
-    have h2 : (a * 256 + b.toNat + 1) * 256 ^ bs.length ≤ ((a + 1) * 256) * 256 ^ bs.length :=
-      Nat.mul_le_mul_right _ (by omega)
-    rw [Nat.pow_succ, Nat.mul_comm (256 ^ bs.length) 256, ← Nat.mul_assoc]
-    omega
-
-theorem beVal_lt (bs : Bytes) : beVal bs < 256 ^ bs.length := by
-  have := foldl_be_lt bs 0
-  simpa [beVal] using this
-
-theorem minBytes_beVal_length (bs : Bytes) : (minBytes (beVal bs)).length ≤ bs.length :=
-  minBytesF_length 16 _ _ (beVal_lt bs)
-
 theorem size_fromU128 (bs : Bytes) : (fromU128 (beVal bs)).size ≤ bs.length + 2 := by
   unfold fromU128
   split
